@@ -233,6 +233,10 @@ class World:
         cls = {'source': SourceSpectrum, 'bandpass': SpectralElement, 'reddening': ReddeningLaw}[kind]
         kw = dict(points=self.arrs[xi], lookup_table=self.arrs[yi], keep_neg=st['keep_neg'])
         conc = {'do': 'new_empirical', 'kind': kind, 'x': xi, 'y': yi, 'keep_neg': st['keep_neg'], 'meta': None}
+        if st.get('fill0'):
+            # no extrapolation: force_extrapolation() (directly, via normalize or Observation) is then observable
+            kw['fill_value'] = 0
+            conc['fill0'] = True
         xc = self.wave_conv(xi)
         if xc is not None:
             conc['xconv'] = xc
@@ -894,7 +898,7 @@ def gen_pool(rng):
         xs = sorted({O.dy(rng, 900, 9000, 3) for _ in range(n)})
         while len(xs) < n:
             xs = sorted(set(xs) | {O.dy(rng, 900, 9000, 3)})
-        desc = rng.random() < 0.25
+        desc = rng.random() < 0.4
         for cont, unit in [('ndarray', None)] + rng.sample([('list', None), ('q_int', 'AA'), ('q_other', 'nm')], rng.randint(0, 2)):
             v = [x / 10 if unit == 'nm' else x for x in xs]
             if desc:
@@ -976,10 +980,11 @@ def gen_step(rng, k):
         if rng.random() < 0.3:
             return {'do': 'new_analytic', 'kind': kind, 'leaf': gen_leaf(rng, kind)}
         return {'do': 'new_empirical', 'kind': kind, 'x': S(rng), 'y': S(rng), 'keep_neg': rng.random() < 0.35,
-                'meta': S(rng) if rng.random() < 0.5 else None}
+                'meta': S(rng) if rng.random() < 0.5 else None, 'fill0': rng.random() < 0.4}
     if r < 0.10:
         return {'do': 'new_empirical', 'kind': rng.choice(['source', 'source', 'bandpass', 'bandpass', 'reddening']),
-                'x': S(rng), 'y': S(rng), 'keep_neg': rng.random() < 0.35, 'meta': S(rng) if rng.random() < 0.5 else None}
+                'x': S(rng), 'y': S(rng), 'keep_neg': rng.random() < 0.35, 'meta': S(rng) if rng.random() < 0.5 else None,
+                'fill0': rng.random() < 0.4}
     if r < 0.19:
         kind = rng.choice(['source', 'bandpass', 'bandpass'])
         return {'do': 'new_analytic', 'kind': kind, 'leaf': gen_leaf(rng, kind)}
@@ -1007,7 +1012,7 @@ def gen_step(rng, k):
     if r < 0.69:
         return {'do': 'observation', 'src': S(rng), 'band': S(rng), 'wild': rng.random() < 0.1,
                 'force': rng.choice(['none', 'none', 'extrap', 'extrap', 'taper', 'taper', 'Extrap', 'bogus']),
-                'binset': opt_w(rng, 0.3)}
+                'binset': opt_w(rng, 0.5)}
     if r < 0.74:
         return {'do': 'integrate', 'o': S(rng), 'w': opt_w(rng), 'itype': rng.choice(['default', 'trapezoid', 'trapezoid', 'analytical', 'simpson'])}
     if r < 0.80:
